@@ -5341,3 +5341,83 @@ func c08r20(c *Ctx, r *Report) {
 	}
 	r.floor("snapshots kept in Terminal.pasting", n, 1)
 }
+
+// c14r15: a field range comes from the user (`--nth 2..9223372036854775807`, `{-999999999999..}`); the loop
+// in Transform that collects the fields of a range must run over existing fields only, i.e. between 1 and the
+// number of tokens, whatever the bounds of the range are (D47: it ran from `begin` to `end` and merely skipped
+// the indexes without a field: a huge bound kept one core busy for ever — and the int counter wraps before it
+// gets there — for every line).
+func c14r15(c *Ctx, r *Report) {
+	l := c.L
+	r.rule("C14-R15", "A (a loop over user-given bounds is clipped to the data)", "P1",
+		"in Transform, the loop whose counter indexes `tokens` starts at a util.Max(.., 1) and ends at a util.Min(.., len(tokens))",
+		"--nth / --with-nth / --accept-nth / {N..M} with a huge bound never returns: fzf hangs on the first line")
+	tf := l.Fn("fzf", "Transform")
+	if tf == nil || len(tf.Params) < 1 {
+		r.unest("anchors", token.NoPos, nil, "anchor Transform", "cannot resolve")
+		return
+	}
+	tokens := tf.Params[0]
+	isLenTokens := func(v ssa.Value) bool {
+		call, ok := v.(*ssa.Call)
+		return ok && calleeName(call.Common()) == "builtin.len" && call.Call.Args[0] == ssa.Value(tokens)
+	}
+	clip := func(v ssa.Value, fn string, pred func(ssa.Value) bool) bool {
+		call, ok := v.(*ssa.Call)
+		if !ok || calleeName(call.Common()) != modPath+"/src/util."+fn {
+			return false
+		}
+		for _, a := range call.Call.Args {
+			if pred(a) {
+				return true
+			}
+		}
+		return false
+	}
+	n := 0
+	for _, lp := range natLoops(tf) {
+		// the counter: a header phi of int type that indexes tokens (minus one) inside the loop
+		for _, in := range lp.hdr.Instrs {
+			phi, ok := in.(*ssa.Phi)
+			if !ok {
+				break
+			}
+			indexes := false
+			eachInstr(tf, func(i2 ssa.Instruction) {
+				ia, ok := i2.(*ssa.IndexAddr)
+				if !ok || ia.X != ssa.Value(tokens) || !lp.body[i2.Block()] {
+					return
+				}
+				for w := range backwardSlice(ia.Index, nil, nil) {
+					if w == ssa.Value(phi) {
+						indexes = true
+					}
+				}
+			})
+			// the range loop over withNth also has a header phi, but its counter does not index tokens
+			if !indexes {
+				continue
+			}
+			iff, ok := lp.hdr.Instrs[len(lp.hdr.Instrs)-1].(*ssa.If)
+			if !ok {
+				continue
+			}
+			cmp, ok := iff.Cond.(*ssa.BinOp)
+			if !ok || cmp.X != ssa.Value(phi) {
+				continue
+			}
+			n++
+			upper := clip(cmp.Y, "Min", isLenTokens)
+			lower := false
+			for i, e := range phi.Edges {
+				if lp.body[phi.Block().Preds[i]] {
+					continue
+				}
+				lower = clip(e, "Max", func(a ssa.Value) bool { return isConstInt(a, 1) })
+			}
+			r.check(upper && lower, fmt.Sprintf("%s:field loop #%d is clipped to the existing fields", relName(tf), n), cmp.Pos(), tf,
+				"from util.Max(begin, 1) to util.Min(end, len(tokens))", "the loop runs over the whole range the user gave, not over the fields that exist")
+		}
+	}
+	r.floor("loops over field indexes in Transform", n, 1)
+}
